@@ -19,6 +19,15 @@ CHECKS = {
  "C18": dict(technique="runtime monitoring of child processes: exit-status / stack-overflow / panic monitors per (shape x operation x depth), termination deadline for small cyclic structures",
              text="Exploration: each (value shape x operation x depth) runs on the real engine in its own forked child (default 8 MB stack; 1 MB in the thorough tier); a death by signal/abort, a panic, or non-termination on a <=10-cell cyclic structure is a violation; an error value is accepted.",
              note="Trusted: fork isolation. Time-outs on deep acyclic values and address-space-cap aborts are inconclusive cases.", ref="DESIGN.md §5 C18"),
+ "C01": dict(technique="differential runtime monitoring: real engine (top-level, module mode, JIT off) vs reference CEK machine on seeded type-directed programs; tree-shrinking of witnesses; root-cause attribution",
+             text="Exploration: seeded programs accepted by the reference machine under both operand evaluation orders are run on the real engine as a top-level evaluation, as a required module (how `steel file.scm` runs a script) and with the JIT off; outcome, the values passed to (verif-emit ..) in a printer-independent rendering, and stdout are compared; divergences are confirmed alone, shrunk, and attributed to a known root cause by a predicate over the shrunk witness or reported.",
+             note="Trusted: vlib/schemeref.py (CEK machine, pinned deviations listed in its docstring) as the reading of the semantics for the generated subset; the generator steers around constructs of known findings, whose fixed witnesses are re-evaluated every run.", ref="DESIGN.md §5 C01"),
+ "C02": dict(technique="N-version runtime monitoring: the real engine against itself across OS processes with different STEEL_* switch settings, top-level and module mode, plus multi-unit histories",
+             text="Exploration: the C01 corpus and generated redefinition/assignment histories are evaluated under 8 (quick) / all 32 (thorough) settings of the five switches; every configuration's (outcome, emitted values, stdout) is compared with the all-off baseline; each divergence is explained by the single switch that produces it.",
+             note="Trusted: determinism of the corpus (accepted by the reference machine under both operand orders). The all-off configuration is the baseline.", ref="DESIGN.md §5 C02"),
+ "C06": dict(technique="differential runtime monitoring over long evaluation histories on one engine vs an executable binding model; H-slot freed-slot-access monitor armed",
+             text="Exploration: seeded histories of up to 260 (quick) / 900 (thorough) top-level units over 8 names (hundreds of shadowings, so the global-slot recycler runs), with old functions kept alive in containers and probed every 7 units, failing units of both kinds; every unit's observation is compared with the reference machine's unit/binding model; JIT on and off.",
+             note="Trusted: Machine.run_unit as the binding model. After the first divergence of a history the rest of that history is not judged.", ref="DESIGN.md §5 C06"),
 }
 NOT_YET = "check not built yet in this session (planned in DESIGN.md §5); no claim is made"
 man = {
